@@ -11,7 +11,6 @@ import (
 
 	"github.com/go-toolsmith/astequal"
 	"github.com/go-toolsmith/typep"
-	"golang.org/x/tools/go/ast/astutil"
 )
 
 func init() {
@@ -104,8 +103,11 @@ func (c *dupSubExprChecker) yieldsFreshValue(x ast.Expr) bool {
 	return lintutil.ContainsNode(x, func(n ast.Node) bool {
 		switch n := n.(type) {
 		case *ast.UnaryExpr:
-			_, ok := astutil.Unparen(n.X).(*ast.CompositeLit)
-			return ok && n.Op == token.AND
+			// &T{}, but also &[]T{{}}[0] and &T{}.f
+			return n.Op == token.AND && lintutil.ContainsNode(n.X, func(n ast.Node) bool {
+				_, ok := n.(*ast.CompositeLit)
+				return ok
+			})
 		case *ast.FuncLit:
 			return true
 		}
